@@ -94,7 +94,13 @@ def near_offset(rng):
 
 
 def occ_pair(rng):
-    k = rng.choice(["hi-lo", "lo-hi", "tie", "tie1"])
+    k = rng.choice(["hi-lo", "lo-hi", "tie", "tie1", "hi-zero", "zero-hi", "zero-zero"])
+    if k == "hi-zero":
+        return k, (rng.choice(["1.00", "0.60"]), "0.00")
+    if k == "zero-hi":
+        return k, ("0.00", rng.choice(["1.00", "0.45"]))
+    if k == "zero-zero":
+        return k, ("0.00", "0.00")
     if k == "hi-lo":
         return k, ("0.70", "0.30")
     if k == "lo-hi":
@@ -134,7 +140,10 @@ def table(rng, size="small", nmodels=None, family=None):
             r = rng.random()
             if r < 0.2 and not het:
                 # insertion: same number as before with the next insertion code
-                icode = "A" if prev_icode is None else chr(ord(prev_icode) + 1)
+                # upper case mostly; the format also allows lower-case letters and digits in this column
+                icode = rng.choice(["A", "A", "A", "B", "a", "x", "1"]) if prev_icode is None else chr(ord(prev_icode) + 1)
+                if not icode.isupper():
+                    tags.add("icode-not-upper")
                 if prev_icode is None and rng.random() < 0.5:
                     num += 1
                 tags.add("icode")
@@ -281,6 +290,16 @@ def table(rng, size="small", nmodels=None, family=None):
             elif occmode == "lower" and r["occ"] in ("1.00",):
                 rr["occ"] = "0.80"
             records.append(rr)
+    # ---- mmCIF rows written chain by chain instead of model by model (each model's rows are then not contiguous)
+    interleaved = False
+    if len(mnums) > 1 and rng.random() < 0.2:
+        first = {}
+        for r in records:
+            first.setdefault(r["chain"], len(first))
+        if len(first) > 1:
+            records.sort(key=lambda r: first[r["chain"]])    # stable: inside a chain the model blocks keep their order
+            interleaved = True
+            tags.add("models-interleaved")
     # ---- finishing: text forms, null markers, absent occupancy (mmCIF only)
     noocc = rng.random() < 0.12
     for r in records:
@@ -297,7 +316,7 @@ def table(rng, size="small", nmodels=None, family=None):
             r["occ"] = None
     if noocc:
         tags.add("occ-absent")
-    meta = dict(nmodels=len(mnums), models=mnums, tags=sorted(tags), pdb_ok=not noocc)
+    meta = dict(nmodels=len(mnums), models=mnums, tags=sorted(tags), pdb_ok=not noocc and not interleaved)
     return records, meta
 
 
